@@ -12,13 +12,13 @@ CLAIMED = {
          "Differential against an independent reference interpreter of text emission, trim markers, raw and comment over generated templates; exhaustive over the 16 marker combinations x whitespace kinds for single tags.",
          "Reference interpreter written from the property statement is trusted; Unicode blanks other than space/tab/CR/LF adjacent to a trimmed side are not asserted.", "4.3"),
  "C05": ("exploration", "bounded-exhaustive loop-header cube and interrupt cube + proptest loop programs against a reference interpreter",
-         "Exhaustive cube over length x offset x limit x reversed x for/tablerow(cols) x collection kind, body printing every loop field; exhaustive break/continue placement in two nested loops; random larger programs. Oracle: reference interpreter.",
+         "Exhaustive cube over length x offset x limit x reversed x for/tablerow(cols) x collection kind, body printing every loop field; objects with several keys by a validity predicate; exhaustive break/continue placement in two nested loops (also inside an included partial); random larger programs. Oracle: reference interpreter.",
          "Reference interpreter trusted; negative offset/limit, interrupts inside tablerow and loops over scalars are outside the statement and not asserted.", "4.5"),
  "C13": ("exploration", "bounded-exhaustive strings x arguments over a 10-symbol alphabet + proptest long strings and filter chains against independent reference implementations and algebraic laws",
-         "All strings of length <=3 (thorough <=4) over {a,B,space,LF,tab,comma,<,e-acute,combining mark,emoji} x all argument strings <=2 / integers in [-6,8] for the 26 string filters, compared with reference implementations over Vec<char>; laws split|join, strip=lstrip.rstrip, truncate bound, chain = left-to-right composition; random strings to 200 chars.",
-         "Reference implementations written from the filter documentation are trusted; truncate is accepted in either unit (chars or grapheme clusters); one known finding (truncate compares byte lengths) is listed in known_findings.json and excluded by exact signature.", "4.13"),
+         "All strings of length <=3 (thorough <=4) over {a,B,space,LF,tab,comma,<,e-acute,combining mark,emoji} x all argument strings <=2 / integers in [-6,8] for the 26 string filters, a second alphabet of characters whose case mappings change length, literal arguments, compared with reference implementations over Vec<char>; laws split|join, strip=lstrip.rstrip, truncate bound, chain = left-to-right composition; random strings to 200 chars.",
+         "Reference implementations written from the filter documentation are trusted; truncate is accepted in either unit (chars or grapheme clusters); downcase is accepted string-level or per character; one known finding (truncate compares byte lengths) is listed in known_findings.json and excluded by exact signature.", "4.13"),
  "C15": ("exploration", "bounded-exhaustive operand grid (integers, numeric strings, floats, every .5 tie) + proptest 64-bit operands against an exact i128 / IEEE-754 reference",
-         "Every pair of the 18-value boundary grid in three spellings for the 7 binary math filters, the grid for the unary ones, all k/8 ties for ceil/floor/round; random 64-bit and double operands. Oracle: exact i128 arithmetic / bit-identical f64 results computed in the harness; overflow must be Err or a float within 4 ulp.",
+         "Every pair of the 18-value boundary grid in three spellings for the 7 binary math filters, the grid for the unary ones, all k/8 ties for ceil/floor/round; numeric strings in 13 further spellings; random 64-bit and double operands. Oracle: exact i128 arithmetic / bit-identical f64 results computed in the harness; overflow must be Err or a float within a relative error of 2^-51.",
          "Harness build has overflow checks on, so a wrapped result also shows as a panic; rounding of integers beyond 2^53 is not asserted.", "4.15"),
  "C16": ("exploration", "bounded-exhaustive strings over entity/URL/HTML alphabets + proptest fragment soups against safety scans, inverses and independent reference decoders",
          "All strings up to length 4-7 over alphabets that spell every entity, near-entity, percent escape (valid, truncated, invalid UTF-8) and tag fragment; oracles: safety scan + unescape inverse (escape), independent reference (escape_once incl. idempotence, url_decode), charset + round trip (url_encode), no complete tag + subsequence (strip_html).",
@@ -27,43 +27,43 @@ CLAIMED = {
          "Reference strftime built on an independent civil-from-days calendar (cross-validated against Python datetime for every day of years 1..9999) compared with the date filter on a stratified slice (quick) / dense slice (thorough) of the timestamp x format grid; print->parse->serde round trips, chronological ordering across offsets, all accepted parser syntaxes.",
          "Flag combinations the directive documentation does not pin are exercised for crashes only; years 1..9999; now/today never generated.", "4.17"),
  "C06": ("exploration", "bounded-exhaustive operator x value-pair table, truthiness table, if/elsif and case/when arm enumerations, and/or pattern enumeration + proptest nested conditionals against a reference interpreter",
-         "Every operator x ordered pair of a 30-value pool (literal and variable operands, if and unless), bare truthiness of every value and of undefined names, all if/elsif chains <=4 arms x truth assignments, case/when with overlapping comma/or lists, every and/or pattern <=4 atoms; random nesting. Oracle: reference interpreter with an independent comparison core; cross-kind cells defer to the value model as the statement says.",
+         "Every operator x ordered pair of a 36-value pool (literal and variable operands, if and unless), bare truthiness of every value and of undefined names, all if/elsif chains <=4 arms x truth assignments, case/when with overlapping comma/or lists, every and/or pattern <=4 atoms (also with an unevaluable last operand: guard idiom); random nesting. Oracle: reference interpreter with an independent comparison core; cross-kind cells defer to the value model as the statement says.",
          "Cells the statement leaves open (undefined names in comparisons, contains on nil/numbers, bare empty/blank) are not compared.", "4.6"),
  "C07": ("exploration", "bounded-exhaustive path enumeration over tagged nested data + literal sweeps + proptest guided walks against a reference lookup",
-         "All paths of <=3 steps from 9 bases over a 43-step pool (dot/bracket keys, every literal index -7..6, indices through variables and nested paths, special names, colliding own keys) over data whose leaves are distinct tagged strings; integer literals at the 64-bit boundaries and a log sweep, decimals, strings in both quote styles. Oracle: reference step-by-step lookup: Ok(value) or Err.",
+         "All paths of <=3 steps from 9 bases over a 43-step pool (dot/bracket keys, every literal index -7..6, indices through variables and nested paths, special names, colliding own keys) over data whose leaves are distinct tagged strings; integer literals at the 64-bit boundaries and a log sweep, decimals, strings in both quote styles (also holding the other quote at their edges, in every literal position), paths under shadowing assign/capture/loop bindings and at the head of a filter chain. Oracle: reference step-by-step lookup: Ok(value) or Err.",
          "Printing objects, integer-looking strings as array indices and .size of non-ASCII strings are not compared.", "4.7"),
  "C04": ("exploration", "bounded-exhaustive program enumeration over a two-name alphabet with lookup probes everywhere + proptest deeper programs against a reference interpreter; caller data deep-compared",
-         "Every program of <=2 statements (thorough <=3) from 62 statement forms x 9 caller bindings, with a non-failing probe of every name (distinguishing object-with-member from scalar bindings) before/after every statement and inside bodies and the included partial; random programs to depth 4 with loop variables named like data. Oracle: reference interpreter with explicit layer order; the caller's Object is compared after each render.",
+         "Every program of <=2 statements (thorough <=3) from 90 statement forms x 9 caller bindings, with a non-failing probe of every name (distinguishing object-with-member from scalar bindings) before/after every statement and inside bodies and the included partial, plus an unconditional member read after each program; random programs to depth 4 with loop variables named like data. Oracle: reference interpreter with explicit layer order; the caller's Object is compared after each render.",
          "Reference interpreter trusted. Non-triviality (same name bound in >=2 layers) is measured by the interpreter per layer pair and reported in evidence.", "4.4"),
  "C08": ("exploration", "enumerated call-form x partial-behaviour family + proptest caller/partial scenarios (valid, broken, missing, dead paths, dynamic names) against a reference interpreter",
          "Every include/render argument form x 8 partial behaviours x inside/outside a caller loop x caller bindings, dynamic partial names changing per execution of one tag site, missing/broken partials on executed and dead paths; random scenarios with a caller and three partials (acyclic), probes of every name around every call. Oracle: reference interpreter modelling include (shared scope, argument frame, interrupts propagate) and render (arguments only, own assignments may rebind them, counters shared but not readable, interrupts contained).",
          "Reference interpreter trusted; cycle/ifchanged in partials and interrupts at the top level of a render-for partial are not compared.", "4.8"),
  "C09": ("exploration", "bounded-exhaustive render histories over hand-written stateful template families + proptest histories over generated templates; oracle = first occurrence and fresh-parser differential",
-         "Every history of <=3 render calls over 3 families of 3 stateful templates x 3 data objects sharing one parser with a lazy partial store (cycle, counters, ifchanged, capture failing midway, break/continue, variable range bounds, partials that cycle/assign/break/fail, broken and missing partials); random histories of up to 6 (thorough 10) calls over generated templates. Each call's result must equal its first occurrence and the same call on a freshly built parser; data objects deep-compared.",
+         "Every history of <=3 render calls over 6 families of 3 stateful templates x 3 data objects sharing one parser, under each partial compilation policy (cycle, counters, ifchanged, capture failing midway, break/continue, variable range bounds, partials that cycle/assign/break/fail, broken and missing partials); random histories of up to 6 (thorough 10) calls over generated templates. Each call's result must equal its first occurrence and the same call on a freshly built parser; data objects deep-compared.",
          "Differential against the engine itself on a fresh parser (state leaks show as differences); multi-key object iteration never observed; explosive generated programs are discarded by a cost estimate before running.", "4.9"),
  "C10": ("fault_enumeration", "exhaustive enumeration of the failing write call k in 1..W (three failure modes) for hand-written and proptest-generated templates, plus short-count sinks, against a prefix/stop/error oracle",
          "For every template the fault-free run gives W write calls and the byte string S; every k in 1..W is injected as an error, as a one-byte short count followed by an error, and as Ok(0); two never-failing chunked sinks. Checked per injection: render_to returns Err, the sink is not called again, accepted bytes equal the fault-free prefix, no panic; streamed bytes equal render().",
          "Exhaustive over fault points per generated template, templates themselves sampled; ErrorKind::Interrupted (legitimately retried by write_all) is never injected.", "4.10"),
  "C19": ("exploration", "proptest scenarios (valid/broken/absent partials, dynamic names, dead paths) rendered under the three compilation policies; differential between policies, repeat renders and removal of broken partials",
          "Each generated scenario (C08 generator + enumerated call forms) builds eager, lazy and on-demand parsers over the in-memory source and renders the main template 1..3 times interleaved with an unrelated template: build must succeed, status/output must agree across policies and across repeats, replacing a broken partial by an absent one must change nothing.",
-         "Differential between the three implementations; error message texts are not compared.", "4.19"),
- "C11": ("exploration", "bounded-exhaustive ordered pairs of a 70-value pool built three independent ways, through every comparison API form and through templates, recomputed in fresh processes; proptest random recursive pairs",
+         "Differential between the three implementations; error message texts are not compared across policies (within a policy a repeated render must repeat the text).", "4.19"),
+ "C11": ("exploration", "bounded-exhaustive ordered pairs of an 81-value pool built three independent ways, through every comparison API form and through templates, recomputed in fresh processes; proptest random recursive pairs",
          "All ordered pairs of the pool (incl. one instant in three offsets, six-key objects, nested containers) checked for reflexivity, symmetry, duality of < and >, <= / >= consistency, equal-never-ordered, int/float equality, agreement of Value / ValueCow / ValueViewCmp / typed PartialEq / template operators, case, contains and uniq, and independence of construction route; the pair matrix is recomputed in 4 fresh processes with different hash seeds.",
          "NaN excluded and transitivity not claimed, as in the statement.", "4.11"),
  "C14": ("exploration", "bounded-exhaustive small arrays over duplicate/nil pools and object pools + proptest long arrays in several initial orders against permutation/order/stability/reference oracles",
-         "All arrays of length <=5 over {1,2,2.0,3,nil,nil} and {a,A,b,B,nil}, all object arrays of length <=4 with present/absent/nil/false properties, arrays up to 60 elements in random/sorted/reversed/organ-pipe order incl. mixed incomparable kinds. Oracles: permutation by multiset, non-decreasing with nil last, stability against a reference insertion sort, idempotence, reference results for uniq/compact/concat/map/where/first/last/size/slice/join.",
+         "All arrays of length <=5 over {1,2,2.0,3,nil,nil} and {a,A,b,B,nil}, <=4 over integers that are not doubles, <=3 over nil-member objects, all object arrays of length <=4 with present/absent/nil/false properties, arrays up to 60 elements in random/sorted/reversed/organ-pipe order incl. mixed incomparable kinds. Oracles: permutation by multiset, non-decreasing with nil last, stability against a reference insertion sort, idempotence, reference results for uniq/compact/concat/map/where/first/last/size/slice/join.",
          "For mutually incomparable elements only permutation and absence of failure are claimed (statement).", "4.14"),
  "C18": ("exploration", "bounded-exhaustive operation sequences over the real frame types against an abstract stack-of-maps model (small-scope state-space enumeration) + proptest longer sequences",
          "Every sequence of <=3 (thorough <=4) of 28 operations (push plain/sandboxed scope with each of 9 data maps, push global layer, pop, set_global, set_index) from 3 caller maps, plus strided slices of the next lengths up to 6 and random sequences to 12, executed on StackFrame/SandboxedStackFrame/GlobalFrame over &dyn Runtime with real drops; after each sequence try_get == model for 8 paths, get agrees with try_get, roots() == resolving names, counters == model.",
          "The abstract model (stack of maps with sandbox cut-off, nearest global layer, one counter map) is written from the statement and trusted; exhaustive only up to the stated length.", "4.18"),
- "C12": ("exploration", "proptest recursive data through every view/conversion route with a fingerprint comparison; proptest instances of derived structs rendered through ~150 template probes via derive and via serde plus a field-by-field ObjectView walk; enumerated boundary integers through six conversion routes",
-         "Each generated datum is observed through &v, ValueCow Owned/Borrowed, to_value, as_view, Some/None, serde to_value/from_value (also into serde_json::Value for kind), JSON and YAML text and must answer type_name, truthy/default/empty/blank, is_*, scalar conversions, structure and printed form identically; struct instances with derive(ObjectView, ValueView, Serialize, Deserialize) must render identically through both routes and agree field by field; integers around i64/u64 limits must be rejected or carried as an equal float.",
+ "C12": ("exploration", "proptest recursive data through every view/conversion route with a fingerprint comparison; proptest instances of derived structs rendered through ~150 template probes via derive and via serde plus a field-by-field ObjectView walk; enumerated boundary integers through seven conversion routes and back into every Rust integer type",
+         "Each generated datum is observed through &v, ValueCow Owned/Borrowed, to_value, as_view, Some/None, serde to_value/from_value (also into serde_json::Value for kind), JSON and YAML text and must answer type_name, truthy/default/empty/blank, is_*, scalar conversions, structure and printed form identically; struct instances with derive(ObjectView, ValueView, Serialize, Deserialize) must render identically through both routes and agree field by field; integers around i64/u64 limits must be rejected or carried as an equal float, and a Liquid integer moved back into any Rust integer type is rejected or the same number.",
          "Strings spelling the crate's date formats, State markers and NaN are excluded as data; enum *de*serialisation is declined by the crate with an error and is not asserted; floats are restricted to values serde_json parses exactly.", "4.12"),
  "C02": ("exploration", "bounded-exhaustive filter x input-kind x argument-kind cube through real templates, tag attribute cube, strftime format enumeration + proptest random templates on random data; totality oracle (no panic, Ok/Err, UTF-8, render == render_to)",
-         "Every filter of the stdlib and of the jekyll/shopify/extra sets (names from the parser's reflection) on every value of a 44-value type-confused pool with every argument tuple of arity <=1 and arity 2 over a sub-pool (thorough: full pool); every loop/cycle/include/render/case/counter attribute position over 14 extreme values x 8 collection forms; every strftime format of <=3 (4) symbols incl. non-ASCII; random templates using every construct on random nested data. Oracle: never panics, returns Ok or Err, bytes valid UTF-8, render() == render_to().",
-         "Ranges/widths above 10^4 excluded as in the statement; hangs would show as the check not terminating (no watchdog yet); explosive random programs are discarded by a cost estimate.", "4.2"),
+         "Every filter of the stdlib and of the jekyll/shopify/extra sets (names from the parser's reflection) on every value of a 51-value type-confused pool with every argument tuple of arity <=1 and arity 2 over a sub-pool (thorough, and always for the extended-configuration filters: full pool); every filter on 72 strings of special-casing / 4-byte / combining / Unicode-blank characters; every loop/cycle/include/render/case/counter attribute position over 14 extreme values x 8 collection forms; every strftime format of <=3 (4) symbols incl. non-ASCII, every printable ASCII directive x 13 prefixes x 10 field-edge timestamps; random templates using every construct on random nested data. Oracle: never panics, returns Ok or Err, bytes valid UTF-8, render() == render_to().",
+         "Ranges/widths above 10^4 excluded as in the statement; hangs and aborts are handled by the supervisor (stalled case re-run alone: reproducible stall = VIOLATION, otherwise inconclusive); explosive random programs are discarded by a cost estimate.", "4.2"),
  "C20": ("exploration", "randomised multi-thread stress (barrier release, start skews, yield injection, repetitions on fresh parsers) with a sequential oracle",
-         "120 enumerated + random scenarios: a shared Parser with an untouched lazy partial store (valid, large, broken, missing partials) and shared parsed templates using cycle/increment/ifchanged/capture/break/include/render; 2..16 threads released by a barrier each perform 3..19 parse/render calls, 20 (thorough 200) repetitions each on a fresh parser. Every concurrent result must equal the same call executed alone on a fresh parser, all threads must finish within 20 s, and the used parser must afterwards answer like a fresh one.",
+         "240 enumerated + random scenarios: a shared Parser with an untouched lazy partial store (valid, large, broken, missing partials) and shared parsed templates using cycle/increment/ifchanged/capture/break/include/render; 2..16 threads released by a barrier each perform 3..19 parse/render calls, 20 (thorough 200) repetitions each on a fresh parser. Every concurrent result must equal the same call executed alone on a fresh parser, all threads must finish within 20 s, and the used parser must afterwards answer like a fresh one.",
          "The harness does not own the scheduler: this is stress, not schedule enumeration; races needing a window of a few instructions can be missed. shuttle/loom are cached but would need the crate's Mutex swapped behind a cfg (not done).", "4.20"),
 }
 
